@@ -91,18 +91,42 @@ Proof. exact enable_enabled_bumps. Qed.
 Print Assumptions C13_enable_of_enabled_adds_one_reference.
 
 (* ---- deleting a bias ----
-   FULL STATEMENT (false of the code): deleting a bias leaves every requirement of the remaining active
-   biases enabled in their children (I3 preserved by delete_bias).
-   Counterexample: two biases apply forces on one variable; the first is asleep (its references have been
-   released by disable(active)); colvarbias::clear() releases them again. *)
-Theorem C13_delete_inactive_bias_refuted : exists s s',
+   (The code used to release the children's dependencies of an inactive bias a second time; repaired by the
+   fix "deleting a sleeping bias released its variables' dependencies twice"; the model follows the repair.)
+   Deleting an inactive bias changes links only: no enabled flag, reference count or alternate_refs of any
+   object changes. *)
+Theorem C13_delete_inactive_bias_only_unlinks : forall (T : tables) n b s,
+  is_enabled s b 0 = false ->
+  delete_bias T n b s = Some (remove_all_children b s) /\
+  forall o f, get_fs (remove_all_children b s) o f = get_fs s o f.
+Proof. intros T n b s H. split; [apply delete_bias_inactive; exact H | intros o f; apply remove_all_children_fs]. Qed.
+Print Assumptions C13_delete_inactive_bias_only_unlinks.
+
+(* A successful disable leaves the feature off (any feature, any state) ... *)
+Theorem C13_disable_turns_off : forall (T : tables) n o f s s',
+  disable T n o f s = Some (true, s') -> is_enabled s' o f = false.
+Proof. exact disable_turns_off. Qed.
+Print Assumptions C13_disable_turns_off.
+
+(* ... hence putting a bias to sleep (which releases what it required of its children) and then deleting it
+   releases nothing a second time: the deletion changes no feature state of any object. *)
+Theorem C13_delete_sleeping_bias_releases_nothing : forall (T : tables) n m b s s1 s2,
+  disable T n b 0 s = Some (true, s1) -> delete_bias T m b s1 = Some s2 ->
+  forall o f, get_fs s2 o f = get_fs s1 o f.
+Proof. exact delete_sleeping_bias_releases_nothing. Qed.
+Print Assumptions C13_delete_sleeping_bias_releases_nothing.
+
+(* non-vacuity and regression example on the real tables (the former counterexample): two biases apply forces on
+   one variable, the first is asleep and is deleted; the requirement of the second stays enabled, count 1. *)
+Example C13_example_delete_sleeping_bias : exists s s',
   run_ops gen_tables 20 w1_ops w1_s0 = Some s /\
+  is_enabled s 1 0 = false /\ is_enabled s 1 3 = true /\
   is_enabled s 2 0 = true /\ is_enabled s 2 3 = true /\ In 2 (f_children (feat gen_tables 0 3)) /\
-  In 0 (o_children (get_obj s 2)) /\ is_enabled s 0 2 = true /\
+  In 0 (o_children (get_obj s 2)) /\ is_enabled s 0 2 = true /\ fs_rc (get_fs s 0 2) = 1%Z /\
   delete_bias gen_tables 20 1 s = Some s' /\
-  is_enabled s' 2 0 = true /\ is_enabled s' 2 3 = true /\ In 0 (o_children (get_obj s' 2)) /\ is_enabled s' 0 2 = false.
-Proof. exact w1_witness. Qed.
-Print Assumptions C13_delete_inactive_bias_refuted.
+  is_enabled s' 2 3 = true /\ In 0 (o_children (get_obj s' 2)) /\ is_enabled s' 0 2 = true /\ fs_rc (get_fs s' 0 2) = 1%Z /\
+  o_parents (get_obj s' 0) = [2].
+Proof. exact w1_regression. Qed.
 
 (* ---- define-then-delete ----
    FULL STATEMENT (C13_add_delete_identity, false of the code): linking a bias to a variable, activating it and
